@@ -18,7 +18,9 @@ EXTRA_TARGETS = MODEL_TARGETS
 
 NAME_ALPHA = 'abcXYZ019 _-.#{}[]()+*/%^<>=!:,;\'`~@$&|?\\\t'
 SPECIAL_NAMES = ['-', '{', '}', '[', ']', '#', '# x', 'and', 'or', 'end', 'begin', 'all', 'a\\', '\\', 'a\\\\', '12:30', '*:*', 'zone', 'hue 5', 'H', ' lead',
-                 'trail ', '  ', 'set "', 'été', '中文', '\U0001F4A1', 'Ünï', 'a\tb', "it's", '%s', '{}', '{0}', 'on', 'off', 'stage row 1', '0', '007', '1.5', '-3']
+                 'trail ', '  ', 'set "', 'été', '中文', '\U0001F4A1', 'Ünï', 'a\tb', "it's", '%s', '{}', '{0}', 'on', 'off', 'stage row 1', '0', '007', '1.5', '-3',
+                 # separators other than the line breaks (LF, CR) are ordinary characters of a name
+                 'a\x1cb', 'x\x0by', 'p\x0cq', '\x1d', 'n\x1e', 'u\x1f', 'nel\x85', 'ls\u2028x', 'ps\u2029']
 
 
 def rnd_component(rng):
